@@ -255,4 +255,6 @@ func init() {
 }
 
 var c03Trivia = []string{"", "\n", "\n\n", "\t", "  ", "\r\n", " // c\n", " // c\n\n", " /* c */ ", " /* c */\n", " /* c\n * d\n */\n", "\n// c\n", "\n// c\n// d\n", "\n// c\n\n", "\n\n// c\n", "\n\n// c\n\n", "\n\n// c\n\n// d\n",
-	"\n/* c */\n", "\n/* c */ ", " // c\n// d\n", " /* c */ // d\n", "\n\t// c\n\t", "\n/* c */\n\n/* d */\n", " /* c */ /* d */ "}
+	"\n/* c */\n", "\n/* c */ ", " // c\n// d\n", " /* c */ // d\n", "\n\t// c\n\t", "\n/* c */\n\n/* d */\n", " /* c */ /* d */ ",
+	// continuation lines of block comments: asterisk in the first column, after blanks and tabs, doubled, absent
+	"\n/*\n* c\n*/\n", "\n/* c\n*d\n\t * e\n  ** f\n g\n*/\n", " /** c\n  *\n  * d */\n"}
